@@ -20,9 +20,15 @@ func NewWriteInPlaceHandler(inputFile string) writeInPlaceHandler {
 }
 
 func (w *writeInPlaceHandlerImpl) CreateTempFile() (*os.File, error) {
+	if err := verifPoint("inplace.create.before_temp"); err != nil {
+		return nil, err
+	}
 	file, err := createTempFile()
 
 	if err != nil {
+		return nil, err
+	}
+	if err := verifPoint("inplace.create.after_temp"); err != nil {
 		return nil, err
 	}
 	info, err := os.Stat(w.inputFilename)
@@ -35,7 +41,13 @@ func (w *writeInPlaceHandlerImpl) CreateTempFile() (*os.File, error) {
 		return nil, err
 	}
 
+	if err := verifPoint("inplace.create.after_chmod"); err != nil {
+		return nil, err
+	}
 	if err = changeOwner(info, file); err != nil {
+		return nil, err
+	}
+	if err := verifPoint("inplace.create.after_chown"); err != nil {
 		return nil, err
 	}
 	log.Debug("WriteInPlaceHandler: writing to tempfile: %v", file.Name())
@@ -45,7 +57,13 @@ func (w *writeInPlaceHandlerImpl) CreateTempFile() (*os.File, error) {
 
 func (w *writeInPlaceHandlerImpl) FinishWriteInPlace(evaluatedSuccessfully bool) error {
 	log.Debug("Going to write in place, evaluatedSuccessfully=%v, target=%v", evaluatedSuccessfully, w.inputFilename)
+	if err := verifPoint("inplace.finish.entry"); err != nil {
+		return err
+	}
 	safelyCloseFile(w.tempFile)
+	if err := verifPoint("inplace.finish.after_close"); err != nil {
+		return err
+	}
 	if evaluatedSuccessfully {
 		log.Debug("Moving temp file to target")
 		return tryRenameFile(w.tempFile.Name(), w.inputFilename)
